@@ -167,12 +167,12 @@ func (s *Stats) Judge(vs []Violation) (fail []Violation) {
 
 // SaveReplay writes the failing scenario where the driver expects it. Rapid re-runs the minimal
 // failing case last, so the file left behind is the shrunk one.
-func (s *Stats) SaveReplay(scenario any, vs []Violation) string {
+func (s *Stats) SaveReplay(unit string, scenario any, vs []Violation) string {
 	p := os.Getenv("VERIF_REPLAY_OUT")
 	if p == "" {
 		return ""
 	}
-	doc := map[string]any{"property": s.Property, "scenario": scenario, "violations": vs}
+	doc := map[string]any{"property": s.Property, "unit": unit, "scenario": scenario, "violations": vs}
 	b, _ := json.MarshalIndent(doc, "", " ")
 	_ = os.MkdirAll(filepath.Dir(p), 0755)
 	_ = os.WriteFile(p, b, 0644)
@@ -183,6 +183,19 @@ func (s *Stats) SaveReplay(scenario any, vs []Violation) string {
 	}
 	s.mu.Unlock()
 	return p
+}
+
+// ReplayUnit returns the name of the test a replay / regress file belongs to ("" if unknown).
+func ReplayUnit(path string) string {
+	b, err := os.ReadFile(path)
+	if err != nil {
+		return ""
+	}
+	var doc struct {
+		Unit string `json:"unit"`
+	}
+	_ = json.Unmarshal(b, &doc)
+	return doc.Unit
 }
 
 // LoadReplay reads the scenario part of a replay / regress file into out.
@@ -205,12 +218,12 @@ func LoadReplay(path string, out any) error {
 
 // CaseFile records the scenario about to be executed so that the driver can recover it when the
 // process dies (panic on a goroutine fan2go spawned).
-func CaseFile(prop string, scenario any) {
+func CaseFile(prop, unit string, scenario any) {
 	p := os.Getenv("VERIF_CASEFILE")
 	if p == "" {
 		return
 	}
-	doc := map[string]any{"property": prop, "scenario": scenario, "violations": []Violation{{Key: "process-died", Msg: "the test process terminated abruptly while executing this scenario"}}}
+	doc := map[string]any{"property": prop, "unit": unit, "scenario": scenario, "violations": []Violation{{Key: "process-died", Msg: "the test process terminated abruptly while executing this scenario"}}}
 	b, _ := json.Marshal(doc)
 	_ = os.WriteFile(p, b, 0644)
 }
